@@ -178,6 +178,12 @@ func runC07(cfg *vh.Config) error {
 		Check:  "c07f_check",
 	}
 	var frontRecs []vh.CaseRec
+	wf := &vh.CasesFile{
+		Header: "From Coq Require Import String List NArith ZArith Bool.\nFrom J5V.model Require Import BclLexer BclParser CmpbFront CmpbWalkCorr.",
+		Type:   "cwalk_case",
+		Check:  "cwalk_check",
+	}
+	var walkRecs []vh.CaseRec
 	// conversion errors of a located file: model of sourcewalk child / GetPos + addError against the real positions
 	convPos := func(caseNo int, stream string, in any, src string, lcoq string, pos []cmpb.Pos) {
 		fo := observeFront(src)
@@ -664,6 +670,10 @@ func runC07(cfg *vh.Config) error {
 		ft, fr := runFront(cfg, res, &caseNo, texts, how)
 		ff.Terms = append(ff.Terms, ft...)
 		frontRecs = append(frontRecs, fr...)
+		// ---- stream 9: the same texts against the Gallina walker (model/CmpbWalk.v): whole location tree, declarations, error positions
+		wt, wr := runWalk(cfg, res, &caseNo, texts, how)
+		wf.Terms = append(wf.Terms, wt...)
+		walkRecs = append(walkRecs, wr...)
 	}
 	// ---- stream 7: entity declarations against model/CmpbEntity.v (expansion by the ent family's model)
 	{
@@ -706,7 +716,17 @@ func runC07(cfg *vh.Config) error {
 		frontRecs[i].Pos = i % perFront
 	}
 	res.Cases = append(res.Cases, frontRecs...)
-	res.Shards = append(shards, fshards...)
+	const perWalk = 60
+	wshards, err := wf.WriteShards(cfg.Out, "walk", perWalk)
+	if err != nil {
+		return err
+	}
+	for i := range walkRecs {
+		walkRecs[i].Shard = fmt.Sprintf("walk_%d", i/perWalk)
+		walkRecs[i].Pos = i % perWalk
+	}
+	res.Cases = append(res.Cases, walkRecs...)
+	res.Shards = append(append(shards, fshards...), wshards...)
 	return res.Write(cfg.Out)
 }
 
